@@ -8,9 +8,19 @@ from .. import core, plssdoc
 CONSTS = {"MaxGroups": 1, "MaxSecs": 1, "TRIds": {1}, "Fault": "none", "EmitCases": False}
 
 
-def mk_case(cid, abstract, rng, plain=False):
-    doc = plssdoc.concretise(abstract, rng)
-    text = plssdoc.render_doc(doc, rng, plain=plain)
+# "overlap" renderings: the same township repeated, or two townships one of whose spellings is part of the
+# other's, written in the spellings whose matched text can begin another occurrence's (known_findings F14)
+OVERLAP_MAPS = [{1: 2, 2: 2}, {1: 1, 2: 5}, {1: 5, 2: 1}]
+
+
+def mk_case(cid, abstract, rng, plain=False, overlap=False):
+    if overlap:
+        from .. import render as R
+        doc = plssdoc.concretise(abstract, rng, block_pool=R.BLOCKS[:10], tr_map=rng.choice(OVERLAP_MAPS))
+        text = plssdoc.render_doc(doc, rng, tr_templates=R.TR_TEMPLATES_OVERLAP)
+    else:
+        doc = plssdoc.concretise(abstract, rng)
+        text = plssdoc.render_doc(doc, rng, plain=plain)
     return {"id": cid, "kind": "c01",
             "abs": {"layout": doc["layout"], "groups": doc["groups"]},
             "args": {"text": text, "doc": doc}}
@@ -57,13 +67,16 @@ def run(ctx):
         cases.append(mk_case("p%d" % i, a, ctx.rng, plain=True))
         for k in range(reps):
             cases.append(mk_case("e%d_%d" % (i, k), a, ctx.rng))
+        if len(a["groups"]) > 1:
+            cases.append(mk_case("o%d" % i, a, ctx.rng, overlap=True))
     if not cases:
         raise core.MachineryFailure("PlssDoc emitted no cases")
     ctx.exhaustive = not thorough
     check(ctx, cases)
     ctx.rule = ("documents = every shape (layout x Twp/Rge groups x section groups x list kind) reachable in "
                 "spec/PlssDoc.tla within %d groups x %d section groups%s; each rendered once plainly and %d times with "
-                "random documented spellings / separators / numbers / blocks; non-trivial = distinct rendered text" % (
+                "random documented spellings / separators / numbers / blocks, and (two or more groups) once with repeated / "
+                "overlapping Twp/Rge spellings; non-trivial = distinct rendered text" % (
                     base["MaxGroups"], base["MaxSecs"], "" if not thorough else " (10% seeded sample)", reps))
     ctx.assumptions += ["rendering vocabularies of harness/render.py and the layout templates of harness/plssdoc.py",
                         "blocks contain no Twp/Rge or section wording and do not end in a culled word (of/the/in/and)",
